@@ -1,6 +1,7 @@
 import LentilVerif.Model.Fourier
 import LentilVerif.Gen.Window
 import LentilVerif.Gen.PropagateMeta
+import LentilVerif.Model.Geometry
 /-! Executable model of `lentil.propagate.propagate_dft` / `propagate_fft` and `Wavefront.field`, generic in the value
 type. The integer window logic is the *generated* kernel `Gen.dftWindow`, `Gen.maskShape`, `Gen.maskShift`
 (re-translated from lentil/propagate.py on every run); the float/array plumbing is written by hand and tied to the
@@ -28,6 +29,21 @@ def outExtent (S0 S1 : Int) (mask : Option Extent) : Extent :=
     let sf := Gen.maskShift S0 S1 b.rmin b.rmax b.cmin b.cmax
     arrayExtent sh.1 sh.2 sf.1 sf.2
 
+/-- `out_extent` from the mask array itself: `lentil.boundary(mask, threshold=0)` (C20's executable model `boundary ∘ gtMask`) feeds
+`_mask_shape/_mask_shift`; `none` when the mask has no entry above the threshold (NumPy raises IndexError) -/
+def outExtentOfMask (S0 S1 : Int) (mask : Option (Arr Bool)) : Option Extent :=
+  match mask with
+  | none => some (outExtent S0 S1 none)
+  | some m => (boundary m).map fun b => outExtent S0 S1 (some b)
+
+/-- `np.fix`: truncation toward zero, as an integer -/
+class TruncLike (R : Type) where
+  trunc : R → Int
+
+/-- `fix_shift = np.fix(shift)`, `subpx_shift = shift - fix_shift` for one axis -/
+def fixSplit [Sub R] [RealLike R] [TruncLike R] (s : R) : Int × R :=
+  (TruncLike.trunc s, s - RealLike.ofInt (TruncLike.trunc s))
+
 /-- the per-field window block of `propagate_dft` (generated): `(intersect_shape, intersect_shift, prop_shift)` -/
 def dftWindow (oe : Extent) (P0 P1 fix0 fix1 : Int) : Option ((Int × Int) × (Int × Int) × (Int × Int)) :=
   Gen.dftWindow oe.rmin oe.rmax oe.cmin oe.cmax P0 P1 fix0 fix1
@@ -42,6 +58,10 @@ structure TField (K R : Type) where
   fix1 : Int
   sub0 : R
   sub1 : R
+
+/-- a field with the shift `(s0, s1)` its tilt elements give it (`Field.shift`, in output samples), split by `np.fix` -/
+def tfieldOfShift [Sub R] [RealLike R] [TruncLike R] (f : Fld K) (s0 s1 : R) : TField K R :=
+  ⟨f, (fixSplit s0).1, (fixSplit s1).1, (fixSplit s0).2, (fixSplit s1).2⟩
 
 section
 variable [Add R] [Sub R] [Mul R] [Neg R] [RealLike R] [Add K] [Mul K] [Zero K] [CxLike K R]
